@@ -472,6 +472,40 @@ class _SeriesLoc:
         return self.s[key]
 
 
+def _label_positions(index, key):
+    """positions of the labels `key` (Index / array / list) in `index` (all matches, label by label)"""
+    k = key
+    if isinstance(k, Index):
+        k = k.arr
+    if isinstance(k, Series):
+        k = k.values_arr()
+    labels = list(k.a.flat) if isinstance(k, snp.ndarray) else list(k)
+    pos = []
+    for lab in labels:
+        hit = [i for i, x in enumerate(index.arr.a) if x is lab]
+        if not hit:
+            hit = [i for i, x in enumerate(index.arr.a) if _label_eq(x, lab)]
+        if not hit:
+            raise KeyError(f"{lab!r} not in index")
+        pos.extend(hit)
+    return pos
+
+
+def _series_loc_set(self, key, value):
+    if isinstance(key, slice) and key == slice(None):
+        self.s._a[:] = value
+        return
+    if isinstance(key, (Series, snp.ndarray)) and _arr(key)._dt.kind == "b":
+        self.s._a[_arr(key)] = value
+        return
+    pos = _label_positions(self.s.index, key)
+    if pos:
+        self.s._a[_np.array(pos, dtype=int)] = value
+
+
+_SeriesLoc.__setitem__ = _series_loc_set
+
+
 class _SeriesILoc:
     def __init__(self, s):
         self.s = s
